@@ -56,6 +56,8 @@ def gen_base(rng, tier):
         if len(o) > 160:
             sc.outputs[k] = o[:rng.choice([0, 10, 60, 99, 100, 101, 160])].rstrip("\\")
     sc.ops = sc.ops[:3]
+    if sc.echo_junk and any(op[0] == "send_interactive" for op in sc.ops):
+        sc.echo_junk = None      # the interactive result keeps the raw echo by design; backspace junk would show in it
     return sc
 
 
@@ -140,7 +142,7 @@ def run(tier, seed):
         if observables(b, br) != observables(v, vr):
             ck.known_finding(f["id"], f["what"])
     modelq = []
-    nbase = 42 if tier == "quick" else 240
+    nbase = 42 if tier == "quick" else 110
     for bi in range(nbase):
         rng = random.Random(f"{seed}-{bi}")
         base = gen_base(rng, tier)
